@@ -63,17 +63,40 @@ def conf_values(conf: T.List[T.Dict[str, T.Any]]) -> T.Dict[str, T.Any]:
 
 
 _WORKDIR: T.Optional[str] = None
+_BASE: T.Optional[str] = None      # set in the parent (work_base) and inherited / passed to the pool workers
+
+
+@contextlib.contextmanager
+def work_base() -> T.Iterator[str]:
+    """A directory for the two tiny files of every case (kept off the disk when /dev/shm exists); removed afterwards."""
+    import shutil
+    import tempfile
+    global _BASE
+    base = os.environ.get('VERIF_TMPDIR') or os.environ.get('TMPDIR') or '/tmp'
+    if not os.environ.get('VERIF_TMPDIR') and os.path.isdir('/dev/shm') and os.access('/dev/shm', os.W_OK):
+        base = '/dev/shm'
+    d = tempfile.mkdtemp(prefix='c14w-', dir=base)
+    _BASE = d
+    try:
+        yield d
+    finally:
+        _BASE = None
+        shutil.rmtree(d, ignore_errors=True)
+
+
+def _init_worker(base: str) -> None:
+    global _BASE, _WORKDIR
+    _BASE = base
+    _WORKDIR = None
 
 
 def _workdir() -> str:
     global _WORKDIR
-    if _WORKDIR is None:
-        import atexit
-        import shutil
-        import tempfile
-        base = os.environ.get('VERIF_TMPDIR') or os.environ.get('TMPDIR') or '/tmp'
-        _WORKDIR = tempfile.mkdtemp(prefix='c14w-', dir=base)
-        atexit.register(shutil.rmtree, _WORKDIR, True)
+    if _WORKDIR is None or not os.path.isdir(_WORKDIR):
+        if _BASE is None:
+            raise MachineryError('no work directory (work_base() not entered)')
+        _WORKDIR = os.path.join(_BASE, f'p{os.getpid()}')
+        os.makedirs(_WORKDIR, exist_ok=True)
     return _WORKDIR
 
 
@@ -323,7 +346,7 @@ def families(quick: bool) -> T.List[T.Tuple[str, T.List[int], T.List[int], T.Lis
     # label, atoms, configurations, formats, model length, implementation length
     return [
         # backslash @ a - space LF : the inline scanner of the meson format
-        ('meson-inline', [1, 2, 3, 6, 5, 11], [1, 2, 3, 4, 5], [1], 5 if quick else 6, 5 if quick else 6),
+        ('meson-inline', [1, 2, 3, 6, 5, 11], [1, 2, 3, 4, 5], [1], 5, 5 if quick else 6),
         # whole placeholders next to each other, escapes, CR LF
         ('meson-frag', [21, 24, 1, 2, 3, 5, 12], [1, 2, 3, 4, 5], [1], 4, 4 if quick else 5),
         # @ a $ { } backslash LF : the cmake scanners
@@ -339,6 +362,11 @@ def families(quick: bool) -> T.List[T.Tuple[str, T.List[int], T.List[int], T.Lis
 
 
 def main(chk: Check) -> None:
+    with work_base() as base:
+        _main(chk, base)
+
+
+def _main(chk: Check, base: str) -> None:
     quick = chk.tier == 'quick'
     chk.rule = ('A: every template of <= N atoms of five families (meson inline: backslash @ a - space LF; cmake inline: '
                 '@ a $ { } backslash LF; #mesondefine lines; #cmakedefine lines; mixed keywords) x the configuration '
@@ -351,7 +379,7 @@ def main(chk: Check) -> None:
                   allow_violation=False)
     chk.add_tlc('Template_MC[pinned cases, header]', res)
     dbg(f'model pinned {res.distinct} states {res.wall:.1f}s')
-    with ProcessPoolExecutor(max_workers=common.NCPU) as ex:
+    with ProcessPoolExecutor(max_workers=common.NCPU, initializer=_init_worker, initargs=(base,)) as ex:
         space: T.Dict[str, T.Any] = {}
         for label, atomsel, confsel, fmtsel, nmodel, nimpl in families(quick):
             res = run_tlc(SPECS / 'template', 'Template_MC', cfg_text=mc_cfg(atomsel, confsel, fmtsel, nmodel),
@@ -414,6 +442,11 @@ def main(chk: Check) -> None:
 
 
 def replay(chk: Check, data: T.Dict[str, T.Any]) -> None:
+    with work_base():
+        _replay(chk, data)
+
+
+def _replay(chk: Check, data: T.Dict[str, T.Any]) -> None:
     common.use_repo_meson()
     d = data['detail']['case']
     if 'header_of' in d:
